@@ -1046,7 +1046,9 @@ def evaluate__contains_token(self: XPathFunction, context: ta.ContextType = None
         collation = self.get_argument(context, 2, required=True, cls=str)
 
     with CollationManager(collation, self) as manager:
-        for input_string in self[0].select(context):
+        for input_string in self[0].atomization(context):
+            if isinstance(input_string, UntypedAtomic):
+                input_string = input_string.value  # function conversion rules: untyped -> xs:string
             if not isinstance(input_string, str):
                 raise self.error('XPTY0004')
             if any(x and manager.eq(token_string, x)
